@@ -595,19 +595,17 @@ void convex_hull(const Array<Vec2> points, Array<Vec2>& result) {
         }
     } else if (exitcode == qh_ERRsingular) {
         // QHull errors for singular input (collinear points in 2D)
-        Vec2 min = {DBL_MAX, DBL_MAX};
-        Vec2 max = {-DBL_MAX, -DBL_MAX};
+        // The hull of collinear points is the segment between the two extreme points (the
+        // first and last in lexicographical order), whatever the direction of the line
+        Vec2* pmin = points.items;
+        Vec2* pmax = points.items;
         Vec2* p = points.items;
         for (uint64_t num = points.count; num > 0; num--, p++) {
-            if (p->x < min.x) min.x = p->x;
-            if (p->x > max.x) max.x = p->x;
-            if (p->y < min.y) min.y = p->y;
-            if (p->y > max.y) max.y = p->y;
+            if (p->x < pmin->x || (p->x == pmin->x && p->y < pmin->y)) pmin = p;
+            if (p->x > pmax->x || (p->x == pmax->x && p->y > pmax->y)) pmax = p;
         }
-        if (min.x < max.x) {
-            result.append(min);
-            result.append(max);
-        }
+        result.append(*pmin);
+        if (pmax->x != pmin->x || pmax->y != pmin->y) result.append(*pmax);
     } else {
         // The least we can do
         result.extend(points);
